@@ -18,7 +18,7 @@ import copy
 PURE_NAMES = {
     "len", "int", "float", "str", "bool", "tuple", "list", "dict", "set", "zip", "enumerate", "range",
     "isinstance", "hasattr", "min", "max", "abs", "round", "sorted", "any", "all", "callable", "repr",
-    "divmod", "filter", "map", "type", "old", "forall", "exists", "implies", "iff", "print", "iter",
+    "divmod", "filter", "map", "type", "old", "forall", "exists", "implies", "iff", "print", "iter", "snap", "at",
     "frozenset", "reversed", "sum",
 }
 PURE_METHODS = {
@@ -50,6 +50,8 @@ def call_is_pure(call, spec_names=()):
     if d in PURE_DOTTED:
         return True
     if isinstance(f, ast.Attribute):
+        if f.attr == "get" and not call.args:
+            return False   # future.get(), not dict.get(key)
         return f.attr in PURE_METHODS
     return False
 
